@@ -3,10 +3,10 @@
    inverse's map is the inverted map.
    (Exact undo of the other step types and of whole histories is evaluated per case by Corr.C04.holds on
    the implementation's observations.) *)
-From Coq Require Import List ZArith.
+From Coq Require Import List ZArith Bool.
 From PM Require Import Model.Data Model.Tree Model.StepMap Model.Step Model.Transform Spec.Tokens Proofs.TransformProofs
   Proofs.ReplaceValid Proofs.SliceSides Proofs.SliceShape Proofs.TokenLaws Proofs.StepTokens
-  Proofs.TokenInj Proofs.ReplaceCanon Proofs.DocEquality Proofs.TokenBasics Proofs.AroundUndo Proofs.AttrUndo Proofs.NodeMarkUndo Proofs.CanonicalMarks Proofs.HistoryUndo Model.Resolve Model.Mark Proofs.MarkProofs.
+  Proofs.TokenInj Proofs.ReplaceCanon Proofs.DocEquality Proofs.TokenBasics Proofs.AroundUndo Proofs.AttrUndo Proofs.NodeMarkUndo Proofs.CanonicalMarks Proofs.MarkSteps Proofs.MarkPointwise Proofs.MarkMerge Proofs.MarkUndo Proofs.HistoryUndo Model.Resolve Model.Mark Proofs.MarkProofs.
 Import ListNotations.
 Local Open Scope nat_scope.
 
@@ -156,6 +156,48 @@ Theorem C04_readd_in_place : forall s mk set,
   msnorm (add_to_set s mk (remove_from_set mk set)) = msnorm set.
 Proof. exact readd_in_place. Qed.
 Print Assumptions C04_readd_in_place.
+
+(* add-mark / remove-mark steps (Proofs/MarkUndo.v).  Their inverse is the opposite step over the same range - exact whenever,
+   token by token, the opposite update undoes the update:
+   an AddMarkStep is undone exactly when on every token of its range the mark is absent, the marks are rank-sorted and none
+   excludes the new mark or is excluded by it (nothing is displaced) - what Transform.add_mark establishes first, by
+   removing the displaced marks with separate steps and adding only where the mark is absent;
+   a RemoveMarkStep is undone exactly when every token carrying the mark is one the add step reaches (an atom whose
+   enclosing node allows the mark) and re-adding puts the mark back in place (C04_readd_in_place). *)
+Theorem C04_mark_step_undo_pointwise : forall s st f t doc d' d'',
+  check s doc = true -> check s d' = true -> mark_step_range st = Some (f, t) ->
+  apply s st doc = ROk d' -> apply s (opposite st) d' = ROk d'' ->
+  invert_step s st doc = Ok (opposite st) /\
+  ((forall i t0, f <= i -> i < t -> nth_error (DT s doc) i = Some t0 ->
+      let p := snd (ctxT (node_ty s doc) (DT s doc) i) in
+      ftok s (step_updN s (opposite st)) p (ftok s (step_updN s st) p t0) = t0) ->
+   DT s d'' = DT s doc).
+Proof.
+  intros s st f t doc d' d'' Hd Hd' Hr Ha Hb. split; [exact (invert_mark_step s st f t doc Hr)|].
+  exact (mark_step_undo_cond s st f t doc d' d'' Hd Hd' Hr Ha Hb).
+Qed.
+Print Assumptions C04_mark_step_undo_pointwise.
+
+Theorem C04_add_mark_step_undo : forall s f t m doc d' d'',
+  check s doc = true -> check s d' = true ->
+  apply s (SAddMark f t m) doc = ROk d' -> apply s (SRemoveMark f t m) d' = ROk d'' ->
+  (forall i t0, f <= i -> i < t -> nth_error (DT s doc) i = Some t0 ->
+     sorted_rank (tmarks t0) /\ forall o, In o (tmarks t0) -> ok2 s (mnorm m) o) ->
+  DT s d'' = DT s doc.
+Proof. exact add_mark_step_undo. Qed.
+Print Assumptions C04_add_mark_step_undo.
+
+Theorem C04_remove_mark_step_undo : forall s f t m doc d' d'',
+  check s doc = true -> check s d' = true ->
+  apply s (SRemoveMark f t m) doc = ROk d' -> apply s (SAddMark f t m) d' = ROk d'' ->
+  (forall i t0, f <= i -> i < t -> nth_error (DT s doc) i = Some t0 ->
+     let p := snd (ctxT (node_ty s doc) (DT s doc) i) in
+     if is_atom_ty s (tok_ty s t0) && allows_mark_type s p (m_ty m)
+     then add_to_set s (mnorm m) (remove_from_set (mnorm m) (tmarks t0)) = tmarks t0
+     else is_in_set (mnorm m) (tmarks t0) = false) ->
+  DT s d'' = DT s doc.
+Proof. exact remove_mark_step_undo. Qed.
+Print Assumptions C04_remove_mark_step_undo.
 
 (* ------------------------------------------------------------------ whole histories
    [inverses s d sts]: the inverse of every step, each built from the document the step was applied to, in undo
